@@ -44,6 +44,8 @@ pub fn run<J: Sync>(jobs: &[J], deadline: Duration, work: impl Fn(&mut Stats, &J
     let started = Instant::now();
     let order = permutation(jobs.len());
     let order = &order;
+    let thin: u64 = std::env::var("VERIF_THIN").ok().and_then(|s| s.parse().ok()).unwrap_or(1);
+    let thin_phase = ORDER_SEED.load(Ordering::Relaxed) % thin.max(1);
     let n = threads().min(jobs.len().max(1));
     let mut merged = Stats::new();
     let results: Vec<Stats> = std::thread::scope(|s| {
@@ -63,6 +65,11 @@ pub fn run<J: Sync>(jobs: &[J], deadline: Duration, work: impl Fn(&mut Stats, &J
                             break;
                         }
                         let i = order[i] as usize;
+                        // child stages that only look for a dependence on something global (the process environment)
+                        // run a thinned workload: every n-th job, which ones rotates with the seed
+                        if thin > 1 && (i as u64 + thin_phase) % thin != 0 {
+                            continue;
+                        }
                         if st.evaluations % 64 == 0 && started.elapsed() > deadline {
                             timed_out.store(true, Ordering::Relaxed);
                         }
